@@ -373,13 +373,23 @@ func (g *G) planBlock(bt string, bs *schema.BlockSchema, depth int) *BlockPlan {
 			g.pinAttr(blk.Body, an, info.AttrKinds[ai], want, bs.Body.Attributes[an])
 		}
 		if key != nil && key.L2Name != "" {
-			g.pinAttr(blk.Body, key.L2Name, key.L2Kind, key.L2Val, dep.Attributes[key.L2Name])
+			as := dep.Attributes[key.L2Name]
+			if _, hasDefault := as.DefaultValue.(schema.DefaultValue); hasDefault && key.L2Val == 0 && g.coin(0.6) {
+				// selected through the default value: the attribute is left out
+				blk.Body.remove(key.L2Name)
+			} else {
+				g.pinAttr(blk.Body, key.L2Name, key.L2Kind, key.L2Val, as)
+			}
 		} else if dep != nil {
 			// only the first level is selected: its own key attributes must not
 			// accidentally select a second-level body
 			for _, an := range sortedAttrNames(dep.Attributes) {
 				if dep.Attributes[an].IsDepKey {
 					blk.Body.remove(an)
+					if _, hasDefault := dep.Attributes[an].DefaultValue.(schema.DefaultValue); hasDefault {
+						// left out, its default would select a second-level body: write a value no key uses
+						g.pinAttr(blk.Body, an, 0, 5+g.pick(3), dep.Attributes[an])
+					}
 				}
 			}
 		}
